@@ -326,10 +326,63 @@ func (e *condEnv) pathCondition(target ast.Node) *Formula {
 		case *ast.RangeStmt:
 			walk(st.Body.List)
 		case *ast.SwitchStmt:
-			for _, cc := range st.Body.List {
-				if contains(cc) {
-					walk(cc.(*ast.CaseClause).Body)
+			// case k holds when no earlier case did and one of its own expressions does; default when none does.
+			// With a tag the expressions are "tag == value"; fallthrough is not modelled (the clause is then left
+			// unconstrained).
+			var earlier []*Formula
+			for _, cl := range st.Body.List {
+				cc := cl.(*ast.CaseClause)
+				var own []*Formula
+				for _, x := range cc.List {
+					if st.Tag == nil {
+						own = append(own, e.formula(x, 0))
+					} else {
+						a, b := e.canon(st.Tag, 0), e.canon(x, 0)
+						if a > b {
+							a, b = b, a
+						}
+						own = append(own, fAtom("("+a+" == "+b+")"))
+					}
 				}
+				if contains(cc) {
+					hasFT := false
+					for _, c2 := range st.Body.List {
+						for _, bs := range c2.(*ast.CaseClause).Body {
+							if br, ok := bs.(*ast.BranchStmt); ok && br.Tok == token.FALLTHROUGH {
+								hasFT = true
+							}
+						}
+					}
+					if !hasFT && st.Init == nil {
+						for _, f := range earlier {
+							conj = append(conj, fNot(f))
+						}
+						if cc.List != nil {
+							conj = append(conj, fOr(own...))
+						} else {
+							// default: also none of the later cases
+							for _, c2 := range st.Body.List {
+								cc2 := c2.(*ast.CaseClause)
+								if cc2 == cc || cc2.List == nil {
+									continue
+								}
+								for _, x := range cc2.List {
+									if st.Tag == nil {
+										conj = append(conj, fNot(e.formula(x, 0)))
+									} else {
+										a, b := e.canon(st.Tag, 0), e.canon(x, 0)
+										if a > b {
+											a, b = b, a
+										}
+										conj = append(conj, fNot(fAtom("("+a+" == "+b+")")))
+									}
+								}
+							}
+						}
+					}
+					walk(cc.Body)
+				}
+				earlier = append(earlier, own...)
 			}
 		case *ast.TypeSwitchStmt:
 			for _, cc := range st.Body.List {
